@@ -206,7 +206,7 @@ func (e *Engine) cmdCheck(prop, tier, evid, known, replayDir string, replay bool
 	for _, n := range fns {
 		fc, err := e.genFunc(n)
 		if err != nil {
-			if strings.Contains(err.Error(), "unknown identifier") && e.funcs[n] != nil {
+			if (strings.Contains(err.Error(), "unknown identifier") || strings.Contains(err.Error(), "contract expression does not fit the code")) && e.funcs[n] != nil {
 				// a contract that names something the function no longer has does not describe the code any
 				// more: reported as a failed obligation of that function, not as a tool failure
 				ob := &Obligation{Fn: n, Name: n + "#contract.binding", Kind: "anchor", Cond: "false", Guard: "true",
